@@ -880,17 +880,21 @@ pub fn format(input: &str, opts: &FormatOptions) -> Result<String, SnippetBuilde
 	if !errors.is_empty() {
 		let mut builder = hi_doc::SnippetBuilder::new(input);
 		for error in errors {
+			// Annotations have to stay inside of the text: an error at the end of input points to
+			// the last byte, and there is nothing to point to in an empty input.
+			let Some(last) = input.len().checked_sub(1) else {
+				break;
+			};
+			let start = usize::from(error.range.start()).min(last);
+			let end = usize::from(error.range.end())
+				.saturating_sub(1)
+				.clamp(start, last);
 			builder
 				.error(hi_doc::Text::fragment(
 					format!("{:?}", error.error),
 					Formatting::default(),
 				))
-				.range(
-					error.range.start().into()
-						..=usize::from(error.range.end())
-							.saturating_sub(1)
-							.max(error.range.start().into()),
-				)
+				.range(start..=end)
 				.build();
 		}
 		// let snippet = builder.build();
